@@ -693,6 +693,43 @@ func Exec(c Case) (res core.Result) {
 			res.Viol = v
 			return
 		}
+		if c.Mode == "C09" {
+			// every prefix any of the concurrent replies delegated is remembered: asked for exactly,
+			// one at a time, each is returned
+			for cl := range c.Clients {
+				held := append([]net.IPNet(nil), m.held[cl]...)
+				for k := range held {
+					xid++
+					msg := Msg{Client: cl, Type: gen.M6Renew, IAPDs: []IAPD{{IAID: 1, Hints: []Hint{{Kind: "self", K: uint64(k)}}}}}
+					wire, _ := m.build(&msg, xid)
+					inner, objAns, wireAns, skipped, v := callHandler(h, wire)
+					if skipped {
+						continue
+					}
+					if v == nil {
+						v = m.validate(cl, inner, objAns, wireAns)
+					}
+					if v != nil {
+						res.Viol = v
+						return
+					}
+					p := held[k]
+					if len(wireAns) != 1 || contains(wireAns[0], &p) == nil {
+						got := "nothing"
+						if len(wireAns) == 1 {
+							got = fmtAns(wireAns[0])
+						}
+						res.Viol = core.Violate("C09/exact-renew-does-not-return-held-prefix", "after a concurrent phase in which a reply told client %d that it holds %s: asked for exactly it, the client is answered with %s", cl, p.String(), got)
+						return
+					}
+					if v := m.record(cl, wireAns, time.Now()); v != nil {
+						res.Viol = v
+						return
+					}
+				}
+			}
+			sawRenewShape = sawRenewShape || len(m.held) > 0
+		}
 	}
 
 	holders := 0
